@@ -83,7 +83,8 @@ class Ctx:
         self.decisions = []        # list of [taken: bool, alt_feasible: bool]
         self.pc = []               # z3 Bool terms (path condition incl. assumptions)
         self.solver = z3.Solver()
-        self.solver.set("timeout", timeout_ms)
+        # feasibility checks are only an optimisation (unknown = explore the branch), keep them short
+        self.solver.set("timeout", min(timeout_ms, 1500))
         self.timeout_ms = timeout_ms
         self.counter = 0
         self.side_obligations = []  # (clause_id, goal, pc_snapshot) proved in-path (e.g. sqrt argument >= 0)
@@ -91,6 +92,8 @@ class Ctx:
         self.notes = []
         self.unknown_feasibility = 0
         self.events = []           # ghost trace (calls to contract stubs etc.)
+        self.qhyps = []            # bounded-quantifier hypotheses (logic.Forall), instantiated at discharge time
+        self.env = None            # L2 environment (abstract powertrain state), set by the job
 
     # -- symbols ---------------------------------------------------------
     def fresh_name(self, base):
@@ -135,12 +138,46 @@ class Ctx:
         r = self.solver.check(extra)
         return r
 
+    def summarize(self, thunk):
+        """Term for the truth value of a pure (state-reading, possibly forking) expression: every local
+        branch is explored without touching the path; result = OR over the branches that returned a true value."""
+        results = []
+        work = [[]]
+        saved = getattr(self, "_local", None)
+        while work:
+            forced = work.pop()
+            loc = dict(forced=forced, taken=[], conds=[])
+            self._local = loc
+            try:
+                v = thunk()
+                if isinstance(v, SymBool):
+                    v = v.term
+                elif isinstance(v, z3.ExprRef):
+                    pass
+                else:
+                    v = z3.BoolVal(bool(v))
+            finally:
+                self._local = saved
+            for k in range(len(forced), len(loc["taken"])):
+                work.append(loc["taken"][:k] + [not loc["taken"][k]])
+            results.append(z3.And(*loc["conds"], v) if loc["conds"] else v)
+            if len(results) > 64:
+                raise EngineError("summarize: too many local branches")
+        return z3.simplify(z3.Or(*results)) if len(results) > 1 else z3.simplify(results[0])
+
     def decide(self, cond) -> bool:
         cond = z3.simplify(cond)
         if z3.is_true(cond):
             return True
         if z3.is_false(cond):
             return False
+        loc = getattr(self, "_local", None)
+        if loc is not None:
+            k = len(loc["taken"])
+            choice = loc["forced"][k] if k < len(loc["forced"]) else True
+            loc["taken"].append(choice)
+            loc["conds"].append(cond if choice else z3.Not(cond))
+            return choice
         idx = len(self.decisions)
         if idx < len(self.prefix):
             taken = self.prefix[idx]
@@ -162,7 +199,27 @@ class Ctx:
 
     def prove_in_path(self, clause_id, goal, note=None):
         """Record an obligation that must hold at this program point."""
-        self.side_obligations.append((clause_id, as_bool_term(goal), list(self.pc), note))
+        self.side_obligations.append((clause_id, goal, list(self.pc), note, list(self.qhyps)))
+
+    def add_index_terms(self, terms):
+        """more terms at which quantified hypotheses are instantiated eagerly (loop indices)"""
+        self.extra_index_terms = getattr(self, "extra_index_terms", [])
+        for t in terms:
+            self.extra_index_terms.append(t)
+            for q in self.qhyps:
+                self.assume(q.at(t))
+
+    def assume_goal(self, goal):
+        """assume a goal that may contain bounded quantifiers"""
+        from .logic import flatten_goal
+        plain, qs = flatten_goal(goal)
+        for p in plain:
+            self.assume(p)
+        for q in qs:
+            self.qhyps.append(q)
+            if self.env is not None:
+                for t in list(self.env.index_terms()) + list(getattr(self, "extra_index_terms", [])):
+                    self.assume(q.at(t))
 
 
 def ctx() -> Ctx:
@@ -266,32 +323,42 @@ def _rt(a, b):
 
 class SymNum:
     """A Python int/float whose value is a z3 Real term."""
-    __slots__ = ("term", "pytype")
+    __slots__ = ("term", "pytype", "iterm")
     __hash__ = None
     __array_priority__ = 1000       # numpy scalars defer to us
 
-    def __init__(self, term, pytype='float'):
+    def __init__(self, term, pytype='float', iterm=None):
         self.term = term
         self.pytype = pytype
+        self.iterm = iterm          # Int-sorted twin of an int-typed value (for indexing), when known
 
     # -- arithmetic ------------------------------------------------------
+    def _it(self, o, f):
+        if self.iterm is None:
+            return None
+        if isinstance(o, SymNum) and o.iterm is not None:
+            return f(self.iterm, o.iterm)
+        if isinstance(o, int) and not isinstance(o, bool):
+            return f(self.iterm, z3.IntVal(o))
+        return None
+
     def __add__(self, o):
         l = _lift(o)
         if l is None:
             return NotImplemented
-        return SymNum(self.term + l[0], _rt(self.pytype, l[1]))
+        return SymNum(self.term + l[0], _rt(self.pytype, l[1]), self._it(o, lambda a, b: a + b))
 
     def __radd__(self, o):
         l = _lift(o)
         if l is None:
             return NotImplemented
-        return SymNum(l[0] + self.term, _rt(self.pytype, l[1]))
+        return SymNum(l[0] + self.term, _rt(self.pytype, l[1]), self._it(o, lambda a, b: b + a))
 
     def __sub__(self, o):
         l = _lift(o)
         if l is None:
             return NotImplemented
-        return SymNum(self.term - l[0], _rt(self.pytype, l[1]))
+        return SymNum(self.term - l[0], _rt(self.pytype, l[1]), self._it(o, lambda a, b: a - b))
 
     def __rsub__(self, o):
         l = _lift(o)
@@ -415,6 +482,8 @@ def sym(x, pytype=None):
 
 
 def term_of(x):
+    if isinstance(x, z3.ExprRef):
+        return x
     l = _lift(x)
     if l is None:
         raise TypeError(f"not a number: {x!r}")
